@@ -144,7 +144,7 @@ def expand_locals(funcnode, expr, depth=6):
     for n in ast.walk(funcnode):
         if isinstance(n, ast.Name) and isinstance(n.ctx, ast.Store):
             counts[n.id] = counts.get(n.id, 0) + 1
-    for st in funcnode.body:
+    for st in ast.walk(funcnode):
         if isinstance(st, ast.Assign) and len(st.targets) == 1 and isinstance(st.targets[0], ast.Name):
             assigns[st.targets[0].id] = st.value
     params = {a.arg for a in funcnode.args.args + funcnode.args.kwonlyargs}
